@@ -113,7 +113,7 @@ def run(ctx: Ctx) -> int:
         snap = {}
         for m in (P_, E_):
             for k, v in vars(m).items():
-                if k != "_VERIF_SKIP_LOG" and not k.startswith("__") and isinstance(v, (dict, list, set, frozenset, tuple)):
+                if k != "_VERIF_SKIP_LOG" and not k.startswith("__") and isinstance(v, (dict, list, set, frozenset, tuple, int, float, str, bool, type(None))):
                     try:
                         snap[m.__name__ + "." + k] = copy.deepcopy(v)
                     except Exception:  # noqa: BLE001
@@ -124,6 +124,15 @@ def run(ctx: Ctx) -> int:
     for nm_ in ("len", "abs", "max", "min", "int", "float", "bool", "str"):
         scripts["shadow-fn-" + nm_] = scripts_pool.HEADER + f"def {nm_}(a, b):\n    return a + b\nx = {nm_}(1, 2)\nsleep(max(100, 250))\n"
         ref["shadow-fn-" + nm_] = None
+    # scripts that are REJECTED after some of their statements were already processed (tuple temporaries, helpers, lists, promotions)
+    rejected = {
+        "rejected-after-swap": "mon = SerialMonitor(9600)\na = 1\nb = 2\na, b = b, a\nwhile True:\n    a, b = b, a\n    break\n",
+        "rejected-after-helper": "mon = SerialMonitor(9600)\ndef twice(v):\n    return v * 2\nx = twice(2)\nxs = [1, 2]\nxs.append(3)\nif x > 1:\n    q = 4\nfor i in range(1, 2, 3):\n    x = i\n",
+        "rejected-device": "led = Led(13)\nlcd = LCD(i2c_addr=0x27)\nlcd.line(0, \"x\")\nled.blink()\nfor i in range(1, 2, 3):\n    led.on()\n",
+    }
+    for nm_, body_ in rejected.items():
+        scripts[nm_] = scripts_pool.HEADER + body_
+        ref[nm_] = None
     names = list(scripts)
     for nm_ in names:
         if ref.get(nm_) is None:
@@ -140,6 +149,17 @@ def run(ctx: Ctx) -> int:
             if got != ref[nm]:
                 ctx.fail("determinism:history", f"output of script {nm!r} depends on earlier parse()/emit() calls in the same process", {"script": scripts[nm], "history_tail": order[max(0, order.index(nm) - 5): order.index(nm)]})
                 break
+    # every script right after every rejected one: nothing may leak out of a transpile that ended in an exception
+    for r_ in rejected:
+        for nm in names:
+            h(scripts[r_])
+            got = h(scripts[nm])
+            ctx.cov["evaluations"] += 1
+            if got != ref[nm]:
+                ctx.fail("determinism:history", f"output of script {nm!r} changes when it is transpiled right after the rejected script {r_!r}", {"script": scripts[nm], "rejected_before": scripts[r_]})
+                break
+    if snapshot() != state0:
+        ctx.fail("determinism:module-state", "transpiling changed module-level state of the transpiler", {"changed": sorted(k for k, v in snapshot().items() if state0.get(k) != v)})
     # ---- (ii) model: order of hoisted declarations = promote sorted
     reqs, expect = [], []
     for nm, src in scripts.items():
